@@ -309,7 +309,7 @@ def prepare(tier, seed):
     global _CASES
     if tier == "quick":
         _CASES = None
-        return 6000
+        return 15000
     # thorough: every byte offset of seeded short workloads x direction x kind x transport, then random runs
     patch.install()
     cases = []
